@@ -351,6 +351,64 @@ func runC15(c *Ctx) {
 				}
 			}
 		}
+		// the candidates are taken in fee-priority order because they sit in a heap: once it is
+		// a heap it is changed through container/heap only. A direct call of the queue's own
+		// Push (a plain append) is fine while filling, i.e. when heap.Init follows before the
+		// next heap.Pop; anywhere else the next Pop no longer yields the best candidate
+		{
+			nHeap := 0
+			for _, call := range AllCallsDeep(sel) {
+				n := CalleeName(call.Common())
+				if n == "container/heap.Pop" || n == "container/heap.Push" || n == "container/heap.Init" {
+					nHeap++
+				}
+				g := call.Common().StaticCallee()
+				if g == nil || !IsOwn(g) || g.Signature.Recv() == nil || (g.Name() != "Push" && g.Name() != "Pop") {
+					continue
+				}
+				// the receiver type is a heap (has Less and Swap)
+				ms := p.Prog.MethodSets.MethodSet(g.Signature.Recv().Type())
+				if ms.Lookup(g.Pkg.Pkg, "Less") == nil || ms.Lookup(g.Pkg.Pkg, "Swap") == nil {
+					continue
+				}
+				bad := ""
+				seen := map[*ssa.BasicBlock]bool{}
+				type pos struct {
+					b *ssa.BasicBlock
+					i int
+				}
+				work := []pos{{call.Block(), instrIndex(call) + 1}}
+				for len(work) > 0 && bad == "" {
+					w := work[len(work)-1]
+					work = work[:len(work)-1]
+					barrier := false
+					for i := w.i; i < len(w.b.Instrs); i++ {
+						if cl, ok := w.b.Instrs[i].(ssa.CallInstruction); ok {
+							switch CalleeName(cl.Common()) {
+							case "container/heap.Init":
+								barrier = true
+							case "container/heap.Pop", "container/heap.Push", "container/heap.Fix", "container/heap.Remove":
+								bad = "reaches " + CalleeName(cl.Common()) + " at " + p.InstrPos(cl) + " without heap.Init in between"
+							}
+						}
+						if barrier || bad != "" {
+							break
+						}
+					}
+					if barrier || bad != "" {
+						continue
+					}
+					for _, sc := range w.b.Succs {
+						if !seen[sc] {
+							seen[sc] = true
+							work = append(work, pos{sc, 0})
+						}
+					}
+				}
+				c.Require("C15.R5 candidate-heap-discipline", FuncKey(sel)+" ⇒ "+FuncName(g), p.InstrPos(call), "a direct Push/Pop on the priority queue is re-heapified (heap.Init) before container/heap uses it again", bad == "", bad)
+			}
+			c.MinInstances("C15.R5 candidate-heap-discipline (container/heap calls)", nHeap, 2)
+		}
 		// a transaction that the executer reports as failed (and that selection therefore drops)
 		// leaves nothing behind in the executer's event list: the list changes only in calls
 		// that end in success
